@@ -199,3 +199,37 @@ def run(ctx):
         if got5 != H.map_apply_masked(inv_rows, idx, P):
             ctx.fail('CliffordGate.backward', 'a map gate with qubits listed as %s run backward does not act as the inverse map embedded on the masked qubits' % (order,),
                      dict(map=rows, qubits=order, P=P, got=got5))
+    # strings handed over in other dtypes (bool, small and unsigned integers, float): same images, masked and unmasked
+    for _ in range(ctx.budget(100, 1200)):
+        n = rng.choice([1, 2, 3, 4])
+        rows = G.rand_map_ops(rng, n)
+        Qs = [G.rand_op(rng, n, density=rng.choice([None, 1.0])) for _k in range(3)] + [(tuple('Y' * n), rng.randrange(4))]
+        dt = rng.choice([np.bool_, np.int8, np.uint8, np.int32, np.float64])
+        ctx.case(('dtype-transform', tuple(rows), tuple(Qs), dt.__name__), True, sample=dict(op='transform_by dtypes', dtype=dt.__name__))
+        ctx.count('dtype:' + dt.__name__)
+        try:
+            lst = pc.PauliList(np.array([O.to_g(q[0]) for q in Qs]).astype(dt), np.array([q[1] for q in Qs]))
+            lst.transform_by(impl.cmap(rows))
+            got = [O.from_gp([int(v) for v in g_], int(p_)) for g_, p_ in zip(np.asarray(lst.gs), np.asarray(lst.ps))]
+        except Exception as e:
+            ctx.fail('PauliList.transform_by', 'implementation raised %r for strings of dtype %s' % (e, dt.__name__), dict(map=rows, Qs=Qs)); continue
+        want = [H.map_apply(rows, q) for q in Qs]
+        if got != want:
+            ctx.fail('PauliList.transform_by', 'operators whose strings are stored as %s are not sent to their images (Y letters in the string: the x.z correction)' % dt.__name__,
+                     dict(map=rows, Qs=Qs, got=got, want=want))
+    # a gate placed on a qubit the register does not have is rejected, not wrapped around
+    # (a gate with as many qubits as the operator is applied to the whole operator whatever its labels say: pinned behaviour)
+    for _ in range(ctx.budget(20, 200)):
+        n = rng.choice([2, 3, 4])
+        q = rng.choice([n, n + 1, n + 3, -n - 1, -n - 2])
+        rows1 = G.rand_map_ops(rng, 1)
+        g = CI.CliffordGate(q); g.set_forward_map(impl.cmap(rows1))
+        P = G.rand_op(rng, n)
+        ctx.case(('out-of-range', n, q), True)
+        try:
+            res = impl.ops_of(g.forward(impl.plist([P])))
+            ctx.fail('CliffordGate.forward', 'a gate on qubit %d of a %d-qubit operator is applied (to %s) instead of being rejected' % (q, n, res), dict(N=n, qubit=q, P=P))
+        except (AssertionError, IndexError, ValueError):
+            pass
+        except Exception as e:
+            ctx.fail('CliffordGate.forward', 'a gate on qubit %d of a %d-qubit operator raised %r (expected AssertionError / IndexError / ValueError)' % (q, n, e), dict(N=n, qubit=q))
